@@ -8,6 +8,8 @@ import KojenVerif.Props.C01
   (rows / states / events / members added, removed, renamed, reordered: all are just a
   different `F₁`).  The expansion of the new model is an *input* of the preservation pass
   (`Model/Pipeline.regen` takes `fresh`), so it cannot depend on the old files.
+  Since fix 404b694 (only lines carrying the prefix are tag lines for Emplace) no side
+  condition relating the two models is needed.
 -/
 namespace KojenVerif.C02
 variable {L K : Type} [DecidableEq K]
@@ -16,10 +18,10 @@ variable {L K : Type} [DecidableEq K]
     old body re-inserted directly under every tag both have; nothing else. -/
 theorem C02_commuting_diagram (c : Cfg L K) (norm : L → L) (hn : NormOK c norm)
     (B : K → List L) (hB : UserOK c B) (F₀ F₁ : List (Item L))
-    (hF₀ : FreshDoc c norm F₀) (hF₁ : FreshDoc c norm F₁) (hx : CrossOK c F₀ F₁) :
+    (hF₀ : FreshDoc c norm F₀) (hF₁ : FreshDoc c norm F₁) :
     regenLines c norm (render F₁) (render (onDisk c norm B F₀))
       = render (onDisk c norm (carry c norm B F₀) F₁) :=
-  regen_two c norm hn B hB F₀ F₁ hF₀ hF₁ hx
+  regen_two c norm hn B hB F₀ F₁ hF₀ hF₁
 
 /-- the generated text of an item, bodies removed -/
 def Item.frame : Item L → Item L
@@ -54,10 +56,6 @@ theorem C02_no_foreign_attachment (c : Cfg L K) (norm : L → L) (B : K → List
 def chainStep (c : Cfg L K) (norm : L → L) (st : (K → List L) × List (Item L)) (F' : List (Item L)) :
     (K → List L) × List (Item L) := (carry c norm st.1 st.2, F')
 
-/-- consecutive models satisfy the hypotheses of the commuting diagram -/
-def ChainOK (c : Cfg L K) (norm : L → L) : List (Item L) → List (List (Item L)) → Prop
-  | _, [] => True
-  | F, F' :: Fs => FreshDoc c norm F' ∧ CrossOK c F F' ∧ ChainOK c norm F' Fs
 
 theorem userOK_carry (c : Cfg L K) (norm : L → L) (hn : NormOK c norm) (B : K → List L)
     (hB : UserOK c B) (F : List (Item L)) : UserOK c (carry c norm B F) := by
@@ -73,17 +71,17 @@ theorem userOK_carry (c : Cfg L K) (norm : L → L) (hn : NormOK c norm) (B : K 
     file of the last model filled with the bodies carried along the chain. -/
 theorem C02_chain (c : Cfg L K) (norm : L → L) (hn : NormOK c norm)
     (Fs : List (List (Item L))) (B : K → List L) (hB : UserOK c B) (F₀ : List (Item L))
-    (hF₀ : FreshDoc c norm F₀) (hch : ChainOK c norm F₀ Fs) :
+    (hF₀ : FreshDoc c norm F₀) (hch : ∀ F ∈ Fs, FreshDoc c norm F) :
     Fs.foldl (fun disk F => regenLines c norm (render F) disk) (render (onDisk c norm B F₀))
       = render (onDisk c norm (Fs.foldl (chainStep c norm) (B, F₀)).1
                                (Fs.foldl (chainStep c norm) (B, F₀)).2) := by
   induction Fs generalizing B F₀ with
   | nil => simp
   | cons F' Fs ih =>
-    obtain ⟨hF', hx, hrest⟩ := hch
+    have hF' := hch F' (by simp)
     simp only [List.foldl_cons]
-    rw [regen_two c norm hn B hB F₀ F' hF₀ hF' hx]
-    exact ih (carry c norm B F₀) (userOK_carry c norm hn B hB F₀) F' hF' hrest
+    rw [regen_two c norm hn B hB F₀ F' hF₀ hF']
+    exact ih (carry c norm B F₀) (userOK_carry c norm hn B hB F₀) F' hF' (fun F hF => hch F (by simp [hF]))
 
 /-- closed form of the carried body after a chain `F₀ → F₁ → … → Fₙ` (n ≥ 1): the original
     text (in output form) iff the tag existed in **every** earlier model `F₀ … Fₙ₋₁`;
@@ -127,13 +125,6 @@ def exF1 : List (Item Str) :=
    .block (ofString "// {{{USER_B_on_entry}}}\n") (ofString "// {{{USER_B_on_entry}}}\n") [],
    .block (ofString "    # {{{USER_C}}}\n") (ofString "    # {{{USER_C}}}\n") []]
 example : FreshDoc strCfg expandTabs exF1 := freshDocB_sound exF1 (by decide +kernel)
-example : CrossOK strCfg C01.exF exF1 := by
-  intro l hl
-  simp only [exF1, List.mem_cons, List.not_mem_nil, or_false, Item.text.injEq] at hl
-  rcases hl with rfl | h | h
-  · decide +kernel
-  · cases h
-  · cases h
 end Example
 
 end KojenVerif.C02
